@@ -270,6 +270,30 @@ theorem inv_history (factor : Matrix ι ι ℝ → Option (Matrix ι ι ℝ)) (h
   | nil => exact h
   | cons o os ih => exact ih _ (inv_step factor hf st h o)
 
+/-- the same with queued updates (`update(m, g)` … `accept()`): every history over
+    {direct update, queued update, accept, reject} keeps the invariant, and a rejection (or an
+    acceptance) leaves no pending update behind -/
+theorem inv_history_queued (factor : Matrix ι ι ℝ → Option (Matrix ι ι ℝ)) (hf : FactorSound factor)
+    (s : BFGS (ι → ℝ) (Matrix ι ι ℝ) × List ((ι → ℝ) × (ι → ℝ))) (h : Inv s.1) (ops : List (BfgsQOp (ι → ℝ))) :
+    Inv (ops.foldl (bfgsQStep (realLA ι) factor) s).1 := by
+  induction ops generalizing s with
+  | nil => exact h
+  | cons o os ih =>
+    apply ih
+    cases o with
+    | direct m g => exact inv_step factor hf s.1 h (.update m g)
+    | queued m g => exact h
+    | accept =>
+      have hfold : Inv (s.2.foldl (fun st mg => bfgsUpdate (realLA ι) factor st mg.1 mg.2) s.1) := by
+        have := inv_history factor hf s.1 h (s.2.map (fun mg => BfgsOp.update mg.1 mg.2))
+        rwa [List.foldl_map] at this
+      exact inv_step factor hf _ hfold .accept
+    | reject => exact inv_step factor hf s.1 h .reject
+
+theorem queue_empty_after_accept_or_reject {V M : Type} (la : LinAlg ℝ V M) (factor : M → Option M)
+    (s : BFGS V M × List (V × V)) : (bfgsQStep la factor s .accept).2 = [] ∧ (bfgsQStep la factor s .reject).2 = [] :=
+  ⟨rfl, rfl⟩
+
 /-- `F Fᵀ Minv = 1` says the momentum covariance is the mass matrix `Minv⁻¹` -/
 theorem factor_is_mass (Minv F : Matrix ι ι ℝ) (h : F * Fᵀ * Minv = 1) : F * Fᵀ = Minv⁻¹ :=
   (Matrix.inv_eq_left_inv h).symm
